@@ -294,14 +294,16 @@ theorem conserved_inv (t c : Nat) (toks : List Nat) (hnd : toks.Nodup) :
       · rename_i m' hm'
         split at h
         · cases h
-        · rename_i cur' hcur
-          cases h
-          refine ⟨?_, by simp only [map_token_setMarket]; exact ht⟩
-          have e1 := recordOut_recorded hm' t
-          have e2 := recordIn_recorded hcur t
-          have e3 := sum_setMarket (rrecorded · t) s.markets (by rw [ht]; exact hnd) hm (recordOut_token hm')
-          simp only [rtotal] at hc ⊢
-          omega
+        · split at h
+          · cases h
+          · rename_i cur' hcur
+            cases h
+            refine ⟨?_, by simp only [map_token_setMarket]; exact ht⟩
+            have e1 := recordOut_recorded hm' t
+            have e2 := recordIn_recorded hcur t
+            have e3 := sum_setMarket (rrecorded · t) s.markets (by rw [ht]; exact hnd) hm (recordOut_token hm')
+            simp only [rtotal] at hc ⊢
+            omega
   marketToMarket := by
     intro s s' a b tok amt h ⟨hc, ht⟩
     unfold marketToMarket at h
@@ -314,20 +316,22 @@ theorem conserved_inv (t c : Nat) (toks : List Nat) (hnd : toks.Nodup) :
       · rename_i ma' hma'
         split at h
         · cases h
-        · rename_i mb hmb
-          split at h
+        · split at h
           · cases h
-          · rename_i mb' hmb'
-            cases h
-            refine ⟨?_, by simp only [map_token_setMarket]; exact ht⟩
-            have e1 := recordOut_recorded hma' t
-            have e2 := recordIn_recorded hmb' t
-            have n1 : (s.markets.map (·.token)).Nodup := by rw [ht]; exact hnd
-            have e3 := sum_setMarket (rrecorded · t) s.markets n1 hma (recordOut_token hma')
-            have n2 : ((setMarket s.markets ma').map (·.token)).Nodup := by rw [map_token_setMarket]; exact n1
-            have e4 := sum_setMarket (rrecorded · t) (setMarket s.markets ma') n2 hmb (recordIn_token hmb')
-            simp only [rtotal] at hc ⊢
-            omega
+          · rename_i mb hmb
+            split at h
+            · cases h
+            · rename_i mb' hmb'
+              cases h
+              refine ⟨?_, by simp only [map_token_setMarket]; exact ht⟩
+              have e1 := recordOut_recorded hma' t
+              have e2 := recordIn_recorded hmb' t
+              have n1 : (s.markets.map (·.token)).Nodup := by rw [ht]; exact hnd
+              have e3 := sum_setMarket (rrecorded · t) s.markets n1 hma (recordOut_token hma')
+              have n2 : ((setMarket s.markets ma').map (·.token)).Nodup := by rw [map_token_setMarket]; exact n1
+              have e4 := sum_setMarket (rrecorded · t) (setMarket s.markets ma') n2 hmb (recordIn_token hmb')
+              simp only [rtotal] at hc ⊢
+              omega
   swapIn := by
     intro m s s' tok amt tok' amt' h ⟨hc, ht⟩
     obtain ⟨_, _, _, _, hm, hcur, _, _⟩ := swapIn_spec h
